@@ -271,6 +271,15 @@ func (s *sim) processReady(i int) bool {
 	}
 	rd := n.vn.RN.Ready()
 	msgs := rd.Messages
+	if os.Getenv("C08_TRACE") != "" {
+		first, lastI := uint64(0), uint64(0)
+		if len(rd.Entries) > 0 {
+			first, lastI = rd.Entries[0].Index, rd.Entries[len(rd.Entries)-1].Index
+		}
+		fi, _ := n.rc.VerifStorage().FirstIndex()
+		li, _ := n.rc.VerifStorage().LastIndex()
+		s.log("n%d Ready: hs=%+v snap=%d entries=%d..%d committed=%d msgs=%d storage=%d..%d applied=%d", n.id, rd.HardState, rd.Snapshot.Metadata.Index, first, lastI, len(rd.CommittedEntries), len(rd.Messages), fi, li, n.rc.VerifAppliedIndex())
+	}
 	// publishEntries sends exactly one commit when some new normal entry carries data
 	appliedBefore := n.rc.VerifAppliedIndex()
 	for _, e := range rd.CommittedEntries {
@@ -855,6 +864,18 @@ func (s *sim) atSend(i int, m raftpb.Message) {
 		return
 	}
 	if needIndex > 0 && last < needIndex {
+		if os.Getenv("C08_TRACE") != "" {
+			var files []string
+			filepath.Walk(n.dir, func(p string, info os.FileInfo, err error) error {
+				if err == nil && !info.IsDir() {
+					files = append(files, fmt.Sprintf("%s(%d)", strings.TrimPrefix(p, n.dir), info.Size()))
+				}
+				return nil
+			})
+			fi, _ := rc2.VerifStorage().FirstIndex()
+			snap, _ := rc2.VerifStorage().Snapshot()
+			s.log("shadow of n%d: files %v; recovered storage %d..%d snapshot %d hs %+v", n.id, files, fi, last, snap.Metadata.Index, hs)
+		}
 		s.shadowViol = append(s.shadowViol, fmt.Sprintf("%s while a restart from its files recovers a log ending at index %d: the acknowledgement leaves before the entries are durable (the leader will commit and answer the client on it)", what, last))
 	}
 }
